@@ -9,6 +9,7 @@ import (
 	"bytes"
 	"fmt"
 	"io"
+	"os"
 	"os/exec"
 	"strconv"
 	"strings"
@@ -234,6 +235,9 @@ func (s *Solver) Check(lits []*Term) (Verdict, string) {
 		return Unknown, "write: " + err.Error()
 	}
 	v, msg := s.readVerdict()
+	if d := time.Since(t0); d > 2*time.Second && os.Getenv("HCSYM_DEBUG") != "" {
+		fmt.Fprintf(os.Stderr, "slow query %.1fs verdict=%v lits=%d last=%s\n", d.Seconds(), v, len(use), use[len(use)-1].body())
+	}
 	switch v {
 	case Sat:
 		s.Stats.Sat++
@@ -432,6 +436,8 @@ func tokenize(s string) []string {
 	return toks
 }
 
+var dumpN int
+
 // OneShot runs a fresh solver process on a self-contained script for the conjunction of lits.
 func OneShot(kind string, timeout time.Duration, lits []*Term) (Verdict, string, time.Duration) {
 	t0 := time.Now()
@@ -455,6 +461,10 @@ func OneShot(kind string, timeout time.Duration, lits []*Term) (Verdict, string,
 		fmt.Fprintf(&buf, "(assert %s)\n", l.ref())
 	}
 	buf.WriteString("(check-sat)\n")
+	if d := os.Getenv("HCSYM_DUMP"); d != "" {
+		dumpN++
+		os.WriteFile(fmt.Sprintf("%s/q%d-%d.smt2", d, os.Getpid(), dumpN), buf.Bytes(), 0o644)
+	}
 	argv := solverArgv(kind, timeout)
 	// non-incremental invocation
 	var args []string
